@@ -243,3 +243,28 @@ func TestHuntNeverStartingStepErrorPath(t *testing.T) {
 		}
 	}
 }
+
+// TestHuntDisabledOutputOfStepThatNeverStarts (VERIF_HUNT=8): an enabled step that never starts (its input
+// needs a step that ends in its error output) and an output that waits, optionally, for its disabled output.
+func TestHuntDisabledOutputOfStepThatNeverStarts(t *testing.T) {
+	if os.Getenv("VERIF_HUNT") != "8" {
+		t.Skip()
+	}
+	LoadSites(os.Getenv("VERIF_SITES"))
+	loadKnown(os.Getenv("VERIF_KNOWN"))
+	p := &ir.Program{Subs: map[string]*ir.Program{}}
+	a := &ir.Step{ID: "a", Kind: "plugin", In: []ir.Field{ir.F("a", ir.Lit(int64(1))), ir.F("mode", ir.Lit("err"))}}
+	b := &ir.Step{ID: "b", Kind: "plugin", In: []ir.Field{ir.F("a", ir.StepRef("a", "outputs", "success", "a"))}}
+	p.Steps = []*ir.Step{a, b}
+	p.Outputs = []ir.Output{{ID: "success", E: ir.Obj(ir.F("in", ir.Ref("input", "n")), ir.F("wd_b", ir.Opt("wait-optional", ir.StepRef("b", "disabled", "output", "message"))))}}
+	c := &Case{Property: "C15", Profile: "hunt", Class: "S1", Program: p, Doc: ir.Doc{"n": int64(1), "tag": "t", "flag": false}}
+	c.Policy = simrt.PolicySpec{Kind: "fifo", Seed: 1}
+	r := RunCase(t, c, true)
+	fmt.Println("PREPARE:", r.PrepareErr, "OUTCOME:", r.Outcome)
+	if len(r.Clients) > 0 {
+		fmt.Println("  returned", r.Clients[0].Returned, "err", r.Clients[0].ErrClass, "out", r.Clients[0].OutputID)
+	}
+	for _, x := range Props["C15"].Check(c, r) {
+		fmt.Println("   VIOL", x.Rule, x.Shape, x.Parts, "known=", knownID(x))
+	}
+}
